@@ -423,7 +423,9 @@ class World(EventDispatcher):
             f'{priority} is not of type int')
 
         processor_type = type(processor)
-        if processor_type in self._processors:
+        # Repeat: the on_remove of the replaced processor may itself add
+        # a processor of this type
+        while processor_type in self._processors:
             self.remove_processor(processor_type)
 
         if priority is not None:
